@@ -36,6 +36,7 @@ def blocked (rule : String) (arg : Nat) (w : List Nat) : Bool :=
   | "parity" => (w.foldl (· + ·) 0) % 2 = 1
   | "size" => w.length = arg
   | "has" => w.contains arg
+  | "mask" => w.foldl (fun m x => m ||| (1 <<< x)) 0 == arg
   | _ => false
 
 def subsetsOf : List Nat → List (List Nat)
